@@ -8,7 +8,10 @@ EXTRA = {"C01-1": ["C02", "C08"], "C01-2": ["C03"], "C02-1": ["C04"], "C02-2": [
          "C01-4": ["C07", "C15"], "C03-4": ["C01", "C05", "C07"], "C07-4": ["C03", "C05"], "C04-4": ["C15"], "C15-5": ["C04"], "C08-5": ["C07"],
          "C16-10": ["C09"], "C16-11": ["C08"], "C15-10": ["C04", "C13", "C10"], "C04-10": ["C02", "C13", "C10"], "C04-11": ["C13", "C10"], "C20-11": ["C06"],
          "C20-10": ["C06"], "C07-11": ["C03", "C01"], "C09-9": ["C19"], "C09-11": ["C05"], "C01-10": ["C14"], "C02-10": ["C04", "C13", "C15"], "C03-9": ["C13"], "C03-11": ["C04"], "C05-9": ["C03"], "C18-10": ["C10", "C07"],
-         "C14-4": ["C10", "C13"], "C10-5": ["C13", "C14"], "C13-5": ["C10", "C14"], "C18-4": ["C13"], "C17-5": ["C15"], "C02-5": ["C04", "C14"], "C04-5": ["C14"]}
+         "C14-4": ["C10", "C13"], "C10-5": ["C13", "C14"], "C13-5": ["C10", "C14"], "C18-4": ["C13"], "C17-5": ["C15"], "C02-5": ["C04", "C14"], "C04-5": ["C14"],
+         # round 5
+         "C07-14": ["C19"], "C02-13": ["C10", "C07"], "C02-14": ["C04", "C13"], "C13-14": ["C10", "C02"], "C15-13": ["C12"], "C03-12": ["C10"], "C03-13": ["C07", "C11"],
+         "C09-13": ["C07"], "C11-12": ["C13"], "C04-13": ["C14"], "C14-13": ["C13"], "C08-14": ["C02", "C13"], "C16-12": ["C07", "C09"], "C16-13": ["C10"]}
 only = sys.argv[1:]
 rows = []
 for sid in sorted(os.listdir(os.path.join(ROOT, "seeded"))):
